@@ -30,6 +30,8 @@ pub enum St {
     StatusFailure { fault: Fault },
     Client(Client),
     Restart,
+    /// environment fault: the key directory disappears while the agent runs; a rotation follows at once
+    RemoveKeyDir,
 }
 
 #[derive(Clone, Debug, Serialize, Deserialize, Hash)]
@@ -39,7 +41,7 @@ pub struct Case {
 }
 
 fn key_shape() -> impl Strategy<Value = KeyShape> {
-    prop_oneof![8 => Just(KeyShape::Good), 1 => Just(KeyShape::NonHex), 1 => Just(KeyShape::OddLength)]
+    prop_oneof![8 => Just(KeyShape::Good), 1 => Just(KeyShape::NonHex), 1 => Just(KeyShape::OddLength), 1 => Just(KeyShape::GuidPathNew), 1 => Just(KeyShape::GuidPathExisting)]
 }
 
 fn client() -> impl Strategy<Value = Client> {
@@ -70,6 +72,7 @@ fn st() -> impl Strategy<Value = St> {
         2 => fault().prop_map(|fault| St::StatusFailure { fault }),
         6 => client().prop_map(St::Client),
         1 => Just(St::Restart),
+        1 => Just(St::RemoveKeyDir),
     ]
 }
 
@@ -77,7 +80,7 @@ pub fn strategy() -> impl Strategy<Value = Case> {
     (enabled_doc(), prop::collection::vec(st(), 2..12)).prop_map(|(first, steps)| Case { first, steps })
 }
 
-pub const RULE: &str = "generator: run histories of the real KeyKeeper + ProxyServer with file logging configured exactly as service::start_service does (Trace level), the event logger flushing every 10 ms and the status task writing status.json every 20 ms: status documents (C09), key rotations, failing acquire/attest calls with error bodies, key responses that are well-formed but carry a non-hex or odd-length key, status failures, restarts of the agent on the same directories, interleaved with client traffic through the proxy (relayed signed requests, denied requests, direct connections, /provision queries with/without notify, with past/current/future ticks). taint set: every key value delivered in a parseable key response, as given, lower/upper-cased, as raw bytes and as base64 of both. sinks searched after every history: every file under the log directory (incl. connection log and rule dumps), the event directory, the status directory, non-key files of the key directory (status.tag, provisioned.tag), the /dev/console stand-in, the process's stdout/stderr, and every byte returned to the local client. Also after every history: the key directory has mode 0700 and owner root. non-trivial: history with >= 1 successful latch and >= 1 host fault or denied//provision request after it; distinct by hash of the history.";
+pub const RULE: &str = "generator: run histories of the real KeyKeeper + ProxyServer with file logging configured exactly as service::start_service does (Trace level), the event logger flushing every 10 ms and the status task writing status.json every 20 ms: status documents (C09), key rotations, failing acquire/attest calls with error bodies, key responses that are well-formed but carry a non-hex or odd-length key or a key id that is a relative path (into a folder that does not exist / that exists next to the key directory), the key directory removed while the agent runs (environment fault, followed by a rotation), status failures, restarts of the agent on the same directories, interleaved with client traffic through the proxy (relayed signed requests, denied requests, direct connections, /provision queries with/without notify, with past/current/future ticks). taint set: every key value delivered in a parseable key response, as given, lower/upper-cased, as raw bytes and as base64 of both. sinks searched after every history: every file under the log directory (incl. connection log and rule dumps), the event directory, the status directory, non-key files of the key directory (status.tag, provisioned.tag), every file next to the key directory, the /dev/console stand-in, the process's stdout/stderr, and every byte returned to the local client. Also after every history: the key directory has mode 0700 and owner root. non-trivial: history with >= 1 successful latch and >= 1 host fault or denied//provision request after it; distinct by hash of the history.";
 
 pub struct Env {
     pub stdio_log: Option<PathBuf>,
@@ -253,6 +256,9 @@ pub fn eval(rig: &KeeperRig, env: &mut Env, known: &crate::report::Known, case: 
     });
     let timeout = Duration::from_secs(20);
     let mut agent = rig.start_agent(None);
+    // the folder the path-like key ids of KeyShape::GuidPathExisting point to ("../logs" relative to the key directory)
+    let beside = agent.key_dir.parent().map(|p| p.join("logs")).unwrap_or_default();
+    let _ = std::fs::create_dir_all(&beside);
     start_proxy_and_status(rig, &agent);
     let mut responses: Vec<(String, Vec<u8>)> = Vec::new();
     let mut latched_once = false;
@@ -314,6 +320,13 @@ pub fn eval(rig: &KeeperRig, env: &mut Env, known: &crate::report::Known, case: 
                 }
                 do_client(c, &mut responses);
             }
+            St::RemoveKeyDir => {
+                stats.class("step:key-directory-removed-while-running");
+                let _ = std::fs::remove_dir_all(&agent.key_dir);
+                if let Err(e) = rig.run_step(Step { keep_doc: true, rotate: true, key_shape: Some(KeyShape::Good), ..Default::default() }, 2, timeout) {
+                    inconclusive = Some(format!("step {} (key directory removed): {}", i, e));
+                }
+            }
             St::Restart => {
                 stats.class("step:restart");
                 let (k, l) = (agent.key_dir.clone(), agent.log_dir.clone());
@@ -355,6 +368,16 @@ pub fn eval(rig: &KeeperRig, env: &mut Env, known: &crate::report::Known, case: 
             sinks.push((l, f));
         }
     }
+    // anything else next to the key directory (a key id is used as a file name: it must not lead outside)
+    if let Some(parent) = agent.key_dir.parent() {
+        let mut files = Vec::new();
+        walk(parent, &mut files);
+        for f in files {
+            if !f.starts_with(&agent.key_dir) {
+                sinks.push(("file-outside-the-key-directory", f));
+            }
+        }
+    }
     for (label, f) in &sinks {
         if let Ok(data) = std::fs::read(f) {
             scanned_bytes += data.len() as u64;
@@ -391,6 +414,10 @@ pub fn eval(rig: &KeeperRig, env: &mut Env, known: &crate::report::Known, case: 
     }
     let _ = std::fs::remove_dir_all(&agent.key_dir);
     let _ = std::fs::remove_dir_all(&agent.log_dir);
+    let _ = std::fs::remove_dir_all(&beside);
+    if let Some(parent) = agent.key_dir.parent() {
+        let _ = std::fs::remove_dir_all(parent.join("exported"));
+    }
 
     if latched_once {
         stats.class("history:key-latched");
